@@ -61,6 +61,8 @@ if "arc_swap" in demo_src or "unsize" in demo_src:
 readme = open(src + "/README.md").read() if os.path.exists(src + "/README.md") else ""
 if "--no-default-features" in readme:
     feat = " --no-default-features"  # the change only shows in a no_std build of the crate
+if "--release" in readme and "cargo test --offline --release" in readme and os.environ.get("SEEDRELEASE", "1") == "1":
+    demo_cmd += " --release"  # the demonstration only fails without debug assertions
 if "SEEDFEAT" in os.environ:
     feat = os.environ["SEEDFEAT"]  # the heuristics above guessed wrong for this seed
 rc0, out0 = sh(demo_cmd + feat, cwd=VW)
